@@ -135,6 +135,15 @@ pub fn order_family() -> Vec<Prog> {
     vec![vec![st(Read(1, e)), sg(1, Write(0, Src::One, e))], vec![st(Read(1, e)), sg(1, WriteDecl(0, Src::One, e))]],
     vec![vec![st(Read(1, e))], vec![st(Read(1, RC::Exists))]],
   ], 2));
+  // (C) Mid(T0) -> Leaf(T1) -> r0; Top(T2) -> {Leaf, Sub(T3) -> Mid}; when r0 becomes 1, Leaf requires Mid: a cycle
+  //     that closes only after earlier sessions inserted edges whose endpoints' neighbourhoods interleave in rank
+  //     (violating programs: only in the slices of C05-C07, C16, C17, C20).
+  out.extend(product(&[
+    vec![vec![st(Req(1, a))], vec![st(Req(1, q))]],
+    vec![vec![st(Read(0, e)), sg(1, Req(0, a))], vec![st(Read(0, e)), sg(1, Req(0, q))]],
+    vec![vec![st(Req(1, a)), st(Req(3, a))], vec![st(Req(3, a)), st(Req(1, a))]],
+    vec![vec![st(Req(0, a))], vec![st(Read(0, e)), st(Req(0, a))]],
+  ], 1));
   out
 }
 
@@ -452,7 +461,7 @@ pub fn run(args: &Args) -> i32 {
     }
     _ => {}
   }
-  if (!quick || std::env::var("VERIF_FAMILIES").is_ok()) && !matches!(prop, Prop::C03 | Prop::C04 | Prop::C18 | Prop::C19) {
+  if (!quick || prop == Prop::C07 || std::env::var("VERIF_FAMILIES").is_ok()) && !matches!(prop, Prop::C03 | Prop::C04 | Prop::C18 | Prop::C19) {
     // the order family (staged exploration) for the other history properties as well (C03/C04 have it in both tiers)
     groups.push(Group { enums: vec![], depth: 2, shapes: false, gen_consumer_only: false, crashes: 0, inject: false, max_roots: Some(1), faulty: false, slice: None, families: false, staged: Some(4), direct: false });
   }
